@@ -106,6 +106,15 @@ func policies() []policy {
 		}, func(id ident, fs bool) bool {
 			return (id.ChainOK && id.NameOK) || (id.LeafFormat && id.NameOK && id.CertKey == expectKey)
 		}},
+		{"skip-verify+callback", func(e *env, k keys.DHPublicKey, fs bool) *transport.VerifyConfig {
+			return &transport.VerifyConfig{InsecureSkipVerify: true, Name: nameOf(e, fs), CurrentTime: e.now,
+				AddVerifyCallback: func(c *certs.Certificate) error {
+					if c.PublicKey != k {
+						return fmt.Errorf("callback: key not acceptable")
+					}
+					return nil
+				}}
+		}, func(id ident, fs bool) bool { return id.CertKey == expectKey }},
 		{"skip-verify", func(e *env, k keys.DHPublicKey, fs bool) *transport.VerifyConfig {
 			return &transport.VerifyConfig{InsecureSkipVerify: true, Name: nameOf(e, fs), CurrentTime: e.now}
 		}, func(id ident, fs bool) bool { return true }},
@@ -231,13 +240,19 @@ func judge(r *vk.Run, e *env, s scenario, ids []ident, ps []policy, res result) 
 	k := s.key(ids, ps)
 	legit := pol.Sat(id, s.ImpServer) && id.HoldsKey
 	tampered := s.Fault != nil
+	// a corrupted datagram is judged at its receiver only
+	tamperedToClient := tampered && !toServer(s.Fault.Type)
+	tamperedToServer := tampered && toServer(s.Fault.Type)
+	if tamperedToServer && res.offered {
+		r.Violation(k+":offered", "server offered a connection although a MAC/tag field of the client's handshake message was corrupted in flight", s)
+	}
 	if s.ImpServer {
-		if res.clientOK && (!legit || tampered) {
+		if res.clientOK && (!legit || tamperedToClient) {
 			why := "the server's chain does not satisfy the client's trust configuration"
 			if pol.Sat(id, true) && !id.HoldsKey {
 				why = "the server never proved possession of the certified private key"
 			}
-			if legit && tampered {
+			if legit && tamperedToClient {
 				why = "a MAC/tag field of a handshake message was corrupted in flight"
 			}
 			r.Violation(k, fmt.Sprintf("Client.Handshake() returned nil although %s (counterpart %s, policy %s, hidden=%v)", why, id.Kind, pol.Name, s.Hidden), s)
@@ -250,9 +265,6 @@ func judge(r *vk.Run, e *env, s scenario, ids []ident, ps []policy, res result) 
 			if res.dataDelivered {
 				r.Violation(k+":data", fmt.Sprintf("server delivered application data from a client that does not satisfy policy %s / did not prove its key (counterpart %s, hidden=%v)", pol.Name, id.Kind, s.Hidden), s)
 			}
-		}
-		if tampered && legit && !s.Hidden && toServer(s.Fault.Type) && res.offered {
-			r.Violation(k+":offered", "server offered a connection although a MAC/tag field of a client message was corrupted", s)
 		}
 	}
 	r.Distinct(fmt.Sprintf("%s|%v|%v|%v", k, res.clientOK, res.offered, res.dataDelivered))
@@ -283,7 +295,7 @@ func main() {
 		}
 		r.Finish()
 	}
-	r.SetRule("mode {discoverable, hidden} x direction {honest client vs configured server, honest server vs configured client} x counterpart identity (14 kinds: honest; valid certificate + other key; other name; raw instead of dns name; expired; expiring exactly now; not yet valid; untrusted root; untrusted chain with trusted intermediate presented; self-signed; self-signed other key; intermediate omitted; intermediate as leaf; root as leaf) x verification policy {CA store, authorized keys, both, skip}; thorough: each configuration additionally with one corrupted byte in each MAC/tag position class of each handshake datagram. Oracle (one-directional): completion / offer / data delivery implies policy satisfied and key possessed (from construction metadata). Non-vacuity: the honest counterpart completes under every policy and mode. distinct_nontrivial = distinct (scenario, outcome) classes.")
+	r.SetRule("mode {discoverable, hidden} x direction {honest client vs configured server, honest server vs configured client} x counterpart identity (14 kinds: honest; valid certificate + other key; other name; raw instead of dns name; expired; expiring exactly now; not yet valid; untrusted root; untrusted chain with trusted intermediate presented; self-signed; self-signed other key; intermediate omitted; intermediate as leaf; root as leaf) x verification policy {CA store, authorized keys, both, skip+additional callback, skip}; thorough: each configuration additionally with one corrupted byte in each MAC/tag position class of each handshake datagram. Oracle (one-directional): completion / offer / data delivery implies policy satisfied and key possessed (from construction metadata). Non-vacuity: the honest counterpart completes under every policy and mode. distinct_nontrivial = distinct (scenario, outcome) classes.")
 	var scs []scenario
 	for _, hidden := range []bool{false, true} {
 		for _, imp := range []bool{true, false} {
